@@ -385,6 +385,9 @@ func c03(c *wk.Ctx) {
 		json.Unmarshal(d.Desc, &cs)
 		r.Violationf(fmt.Sprintf("C03|mode=%s|outcome=process-aborted", cs.Mode), json.RawMessage(d.Desc), "incremental sync ended the process (exit %d): %s", d.Result.Exit, firstPanicLine(d.Result.Stderr))
 	}
+	if wk.ReplayOne(c, "c03cfg", func(idx int) interface{} { return c03extra{CfgIdx: idx / 100000} }, onDeath) {
+		return
+	}
 	ncfg := c.N(16, 64)
 	per := c.N(40, 150)
 	wk.Parallel(ncfg, 16, func(i int) {
